@@ -13,6 +13,7 @@ import (
 	"sort"
 	"strings"
 	"sync"
+	"time"
 )
 
 type replayResult struct {
@@ -177,6 +178,12 @@ func replayWitnesses(repo, hdir string, r *HarnessRun, labels []string) (int, []
 				good = true
 				ok++
 				break
+			}
+			fmt.Fprintf(os.Stderr, "note: witness candidate did not replay: %s %s\n", r.Name, problem)
+			if d := os.Getenv("GOSMT_KEEPBAD"); d != "" {
+				os.MkdirAll(d, 0o755)
+				wb, _ := json.Marshal(map[string]interface{}{"harness": r.Name, "label": l, "problem": problem, "model": w.Model})
+				os.WriteFile(filepath.Join(d, fmt.Sprintf("bad-%s-%s-%d.json", r.Name, sanitizeName(l), time.Now().UnixNano())), wb, 0o644)
 			}
 			if firstBad == "" {
 				firstBad = problem
